@@ -90,22 +90,31 @@ type Binding struct {
 	Flaky    []string          // reference runs that did not agree with themselves
 	scratch  string
 	n        int
+	Stem     string // the setup file is <Stem>.go; the documented default output <Stem>.gen.go
 }
 
 // NewBinding computes the reference outputs for the accepted versions.
 func NewBinding(scratch string, tool *core.Tool, versions map[string]Input) *Binding {
-	b := &Binding{Tool: tool, Versions: versions, Ref: map[string][]byte{}, RefErr: map[string]string{}, scratch: scratch}
+	return NewBindingStem(scratch, tool, versions, "setup")
+}
+
+// NewBindingStem is NewBinding for a setup file called <stem>.go. The reference outputs are written with an
+// explicit -out at the documented default path (<stem>.gen.go), so that they do not depend on how the tool
+// derives that path itself.
+func NewBindingStem(scratch string, tool *core.Tool, versions map[string]Input, stem string) *Binding {
+	b := &Binding{Tool: tool, Versions: versions, Ref: map[string][]byte{}, RefErr: map[string]string{}, scratch: scratch, Stem: stem}
 	for name, in := range versions {
 		if !in.Accepts {
 			continue
 		}
 		w := b.NewWorld()
 		w.materialise(State{Setup: name, OutD: "absent", OutC: "absent", LogD: "absent", LogC: "absent", Rest: "clean"})
-		res := tool.Run(core.RunOpts{Dir: filepath.Join(w.Root, pkgDir), Args: []string{"setup.go"}})
+		refArgs := []string{"-out", stem + ".gen.go", stem + ".go"}
+		res := tool.Run(core.RunOpts{Dir: filepath.Join(w.Root, pkgDir), Args: refArgs})
 		for attempt := 0; attempt < 4 && (res.Exit != 0 || res.TimedOut); attempt++ {
 			// identical runs that do not agree are a finding of their own (C13); remember it and try again
 			first := res
-			res = tool.Run(core.RunOpts{Dir: filepath.Join(w.Root, pkgDir), Args: []string{"setup.go"}})
+			res = tool.Run(core.RunOpts{Dir: filepath.Join(w.Root, pkgDir), Args: refArgs})
 			if res.Exit == 0 && !res.TimedOut {
 				b.Flaky = append(b.Flaky, fmt.Sprintf("input %s: two identical runs on a pristine directory ended with exit %d (%s) and exit 0", in.Name, first.Exit, firstLines(first.Stderr, 1)))
 			}
@@ -147,9 +156,9 @@ func (b *Binding) NewWorld() *World {
 // Remove deletes the world.
 func (w *World) Remove() { _ = os.RemoveAll(filepath.Dir(w.Root)) }
 
-func (w *World) setupPath() string { return filepath.Join(w.Root, pkgDir, "setup.go") }
-func (w *World) outDPath() string  { return filepath.Join(w.Root, pkgDir, "setup.gen.go") }
-func (w *World) logDPath() string  { return filepath.Join(w.Root, pkgDir, "setup.gen.log") }
+func (w *World) setupPath() string { return filepath.Join(w.Root, pkgDir, w.b.Stem+".go") }
+func (w *World) outDPath() string  { return filepath.Join(w.Root, pkgDir, w.b.Stem+".gen.go") }
+func (w *World) logDPath() string  { return filepath.Join(w.Root, pkgDir, w.b.Stem+".gen.log") }
 func (w *World) outCDir() string   { return filepath.Join(w.Root, pkgDir, "gen_out") }
 func (w *World) outCPath() string  { return filepath.Join(w.outCDir(), "custom.go") }
 func (w *World) logCPath() string  { return filepath.Join(w.outCDir(), "custom.log") }
